@@ -797,6 +797,10 @@ class Blockwise(ArrayExpr):
                     continue
                 first, last = br
                 if last < first:
+                    if isinstance(new_adjust_chunks.get(out_ind[axis]), (tuple, list)):
+                        # The empty selection leaves one empty input block; no
+                        # sub-range of the per-block sizes describes it.
+                        return None
                     continue
                 ind = out_ind[axis]
                 if ind in new_adjust_chunks:
